@@ -296,15 +296,17 @@ SPECS.append({
 
 SPECS.append({
  "property_id": "C19", "level": "model_checking",
- "explanation": "Loaders: the file is a vector of symbolic bytes behind the engine's os.Open / bufio / encoding/binary execution; a load either fails or returns an index, never panics, and every allocation whose size is a function of file content is bounded by a constant plus the file length (obligation posed at every make with a symbolic size; counterexamples replayed natively under an address-space limit with a TotalAlloc oracle). Semantic stage: with no index, or an index that has no vector for the query, SearchUniversal is unchanged. Cosine: symmetric bit for bit (dimension 1-3, symbolic float32 components) and 0 for empty / zero / mismatched vectors.",
+ "explanation": "Loaders: the file is a vector of symbolic bytes behind the engine's os.Open / bufio / encoding/binary execution; a load either fails or returns an index, never panics, and every allocation whose size is a function of file content is bounded by a constant plus the file length (obligation posed at every make with a symbolic size; counterexamples replayed natively under an address-space limit with a TotalAlloc oracle). Semantic stage: with no index, or an index that has no vector for the query, SearchUniversal is unchanged. Cosine: symmetric bit for bit (dimension 1-3, symbolic float32 components) and 0 for empty / zero / mismatched vectors; its range [-1, 1] is decided on domains the FP solver finishes (2-dimensional small-integer vectors, cvc5; grid of ordinary and special IEEE values with symbolic choices).",
  "assumptions": ["file length <= 12 bytes; the 16-bit word-length field is assumed <= 16 (the executor enumerates slice lengths)", "components finite in [-1e6, 1e6]", "Float64bits of a symbolic float is an uninterpreted function of the float term (sufficient for bit-identity of two computations)"],
  "stubs": ["file-system model: os.Open / (*os.File).Read", "bufio and encoding/binary run from SSA"],
- "outside_the_claim": ["|cosine| <= 1 and the stage's bounded-factor clause: floating-point division and square roots put these obligations beyond cvc5 / z3 within the time limits here (cosine range unknown after 60 s per query; the 1-ulp overshoot for d=2 reported in DESIGN.md was found by a 190 s cvc5 run during design). They are stated, not claimed.", "successful loads of real-size files (400-byte records)"],
+ "outside_the_claim": ["|cosine| <= 1 for arbitrary float32 components and the stage's bounded-factor clause for symbolic vectors: floating-point division and square roots over full-width inputs put these beyond cvc5 / z3 here (unknown after 60 s and 900 s per query). Decided only for components that are integers 0..15 (dimension 2) and for the value grids of CosineGrid / StageSpecial.", "successful loads of real-size files (400-byte records)"],
  "trusted_base": TB,
  "harnesses": [
-  H("C19", "internal/embedding", "CosineSym1", "both", ["cosine"], "dimension 1", "symmetry"),
-  H("C19", "internal/embedding", "CosineSym2", "both", ["cosine"], "dimension 2", "symmetry"),
-  H("C19", "internal/embedding", "CosineSym3", "both", ["cosine"], "dimension 3", "symmetry"),
+  H("C19", "internal/embedding", "CosineSym1", "both", ["cosine"], "dimension 1", "symmetry (branches on the quotient are explored both ways without asking the FP solver)", fork_hard_fp=True),
+  H("C19", "internal/embedding", "CosineSym2", "both", ["cosine"], "dimension 2", "symmetry (branches on the quotient are explored both ways without asking the FP solver)", fork_hard_fp=True),
+  H("C19", "internal/embedding", "CosineSym3", "both", ["cosine"], "dimension 3", "symmetry (branches on the quotient are explored both ways without asking the FP solver)", fork_hard_fp=True),
+  H("C19", "internal/embedding", "CosineGrid", "both", ["cosine"], "dimension 2; components from {0,1,-1,2,3,9,15,1e-30,3e38,NaN,+Inf}; second vector equal or from {0,1,-2,3e38}", "a number in [-1,1], symmetric, 0 with a zero vector"),
+  H("C19", "internal/embedding", "CosineSmall2", "thorough", ["cosine"], "dimension 2; components symbolic integers 0..15; second vector equal or independent", "|cos| <= 1 decided by cvc5 through sqrt and division (found a = b = (15, 9) -> 1.0000000000000002)", fp_timeout_ms=300000),
   H("C19", "internal/embedding", "CosineShapes", "both", ["cosine"], "empty, mismatched, zero vectors", "zero cases"),
   H("C19", "internal/embedding", "LoadWords4", "both", ["rejected"], "word-vector file of 0-4 symbolic bytes", "no panic, bounded allocation"),
   H("C19", "internal/embedding", "LoadWords8", "both", ["rejected"], "5-8 symbolic bytes", "same"),
